@@ -320,6 +320,10 @@ def run_save(recipe: dict, plan: dict | None, root: str, retry: bool = True) -> 
         if pre in ("both", "data_only"):
             with open(real_path + ".data", "wb") as f:
                 f.write(b"\xaa" * 30000)
+        if cfg.get("preexisting_readonly"):
+            for stale in (real_path, real_path + ".data"):
+                if os.path.isfile(stale) and not os.path.islink(stale):
+                    os.chmod(stale, 0o444)
         if cfg.get("decoy_first"):
             # another, unrelated model saved by the same process just before (module-level state between two saves of
             # *different* models); no faults, its own directory, result not judged
